@@ -1,4 +1,138 @@
-//! `repeat` endpoint (filled in with C12).
-pub fn dispatch(_fields: &[&str]) -> String {
-    "BAD\tnot implemented".into()
+//! `repeat` endpoint (C12, determinism).
+//!
+//! request : `id \t repeat \t <0|1 annotate> \t <hex src> \t <K> \t <T> \t <R> [\t <hex warm-up src> [\t <Kw>]]`
+//!           `src` may hold several files separated by U+001E (they are given to one
+//!           `mamba_to_python` call, as the project driver does).
+//! answer  : `OK \t seq=<i,i,..> \t thr=<i,i,..> \t warm=<i,..> \t <kind>,<hex> \t <kind>,<hex> ...`
+//!
+//! The source is transpiled
+//!   * (if a warm-up source is given) once BEFORE anything else runs the warm-up source, then the source
+//!     itself `Kw` times (default `K`; `warm=`): the same input after an unrelated earlier workload in this process;
+//!   * `K` times sequentially on the calling thread (`seq=`);
+//!   * on `T` threads released together by a start flag, `R` times on each thread (`thr=`, thread-major).
+//! Every run's outcome is reported: the trailing fields are the table of DISTINCT outcomes in order of first
+//! appearance (`O` = Ok + emitted Python, `E` = Err + diagnostics, `P` = panic + message) and the three lists
+//! hold, per run, the index into that table. Nothing is compared here; the orchestrator judges.
+//!
+//! Every `HashSet`/`HashMap` created by the pipeline gets its own `RandomState` (std increments the per-thread
+//! key for every instance and draws fresh keys for every new thread), so repetition inside one process does
+//! vary the iteration orders; different processes are covered by the orchestrator starting `mh` several times.
+use std::panic::{catch_unwind, AssertUnwindSafe};
+use std::path::PathBuf;
+use std::sync::atomic::{AtomicBool, Ordering};
+use std::sync::Arc;
+
+use mamba::{mamba_to_python, PipelineArguments};
+
+use crate::sexp::{hex, unhex};
+
+const SEP: char = '\u{1e}';
+
+#[derive(Clone, PartialEq, Eq, Debug)]
+pub struct Outcome {
+    pub kind: char,
+    pub text: String,
+}
+
+pub fn run_once(src: &str, annotate: bool) -> Outcome {
+    let input: Vec<(String, Option<PathBuf>)> =
+        src.split(SEP).map(|s| (s.to_string(), None)).collect();
+    let args = PipelineArguments { annotate };
+    let res = catch_unwind(AssertUnwindSafe(|| {
+        mamba_to_python(&input, &PathBuf::from(""), &args)
+    }));
+    match res {
+        Ok(Ok(out)) => Outcome { kind: 'O', text: out.join(&SEP.to_string()) },
+        Ok(Err(errs)) => Outcome { kind: 'E', text: errs.join(&SEP.to_string()) },
+        Err(p) => {
+            let msg = p
+                .downcast_ref::<String>()
+                .cloned()
+                .or_else(|| p.downcast_ref::<&str>().map(|s| s.to_string()))
+                .unwrap_or_default();
+            Outcome { kind: 'P', text: msg }
+        }
+    }
+}
+
+fn intern(table: &mut Vec<Outcome>, o: Outcome) -> usize {
+    if let Some(i) = table.iter().position(|x| *x == o) {
+        i
+    } else {
+        table.push(o);
+        table.len() - 1
+    }
+}
+
+fn join(v: &[usize]) -> String {
+    v.iter().map(|i| i.to_string()).collect::<Vec<_>>().join(",")
+}
+
+pub fn dispatch(fields: &[&str]) -> String {
+    let annotate = fields.first().copied() == Some("1");
+    let src = match fields.get(1).map(|h| unhex(h)) {
+        Some(Ok(s)) => s,
+        _ => return "BAD\tsource".into(),
+    };
+    let num = |i: usize, d: usize| fields.get(i).and_then(|s| s.parse::<usize>().ok()).unwrap_or(d);
+    let (k, t, r) = (num(2, 16), num(3, 8), num(4, 1));
+    let warm_src = fields.get(5).and_then(|h| unhex(h).ok()).filter(|s| !s.is_empty());
+    let kw = num(6, k);
+
+    let mut table: Vec<Outcome> = vec![];
+    let mut warm = vec![];
+    if let Some(w) = &warm_src {
+        let _ = run_once(w, annotate);
+        let _ = run_once(w, !annotate);
+        for _ in 0..kw {
+            let o = run_once(&src, annotate);
+            warm.push(intern(&mut table, o));
+        }
+    }
+
+    let mut seq = vec![];
+    for _ in 0..k {
+        let o = run_once(&src, annotate);
+        seq.push(intern(&mut table, o));
+    }
+
+    // start flag instead of a Barrier: a failed spawn must not leave the others waiting forever
+    let go = Arc::new(AtomicBool::new(false));
+    let src_arc = Arc::new(src);
+    let mut handles = vec![];
+    for _ in 0..t {
+        let b = Arc::clone(&go);
+        let s = Arc::clone(&src_arc);
+        let h = std::thread::Builder::new()
+            .stack_size(64 * 1024 * 1024)
+            .spawn(move || {
+                while !b.load(Ordering::Acquire) {
+                    std::thread::yield_now();
+                }
+                (0..r).map(|_| run_once(&s, annotate)).collect::<Vec<Outcome>>()
+            });
+        handles.push(h);
+    }
+    go.store(true, Ordering::Release);
+    let mut thr = vec![];
+    for h in handles {
+        let outs = match h {
+            Ok(h) => h.join().unwrap_or_else(|_| {
+                vec![Outcome { kind: 'P', text: "thread died".into() }]
+            }),
+            Err(e) => vec![Outcome { kind: 'P', text: format!("spawn failed: {e}") }],
+        };
+        for o in outs {
+            thr.push(intern(&mut table, o));
+        }
+    }
+
+    let mut out = format!("OK\tseq={}\tthr={}\twarm={}", join(&seq), join(&thr), join(&warm));
+    for o in &table {
+        out.push('\t');
+        out.push(o.kind);
+        out.push(',');
+        out.push_str(&hex(&o.text));
+    }
+    out
 }
